@@ -77,6 +77,12 @@ def gen_config(rng, quick, force=None):
         kw["xsscale"] = rng.choice([1, 30, 300, 3000])
         kw["lossscale"] = rng.choice([1, 1, 0.1, 3])
         kw["posrest"] = rng.below(2)
+        if kw["along"] != "neutral" and rng.chance(1, 4):
+            # Urban MSC (hand-made tables) in the along-step: the energy loss then uses the true
+            # path length, the ledger must balance all the same
+            kw["msc"] = 1
+            kw["mscalg"] = rng.choice(["safety", "safety_plus", "minimal"])
+            kw["mscxs"] = rng.choice([1e-4, 1e-2, 1.0, 10.0])
         kw["cuts"] = {n: rng.choice([0.0, 0.01, 0.1, 1.0])
                       for n in ("gamma", "electron", "positron")}
         kw["opts"] = {"lowest_electron_energy": rng.choice([1e-3, 1e-3, 0.05, 0.5]),
@@ -108,6 +114,11 @@ def gen_config(rng, quick, force=None):
                 pos = [600.0, 0.0, 0.0]
             name = "gamma" if not rng.chance(1, 6) else "electron"
             prim.append((name, e, pos, unit_dir(rng), rng.below(4), nprim))
+    if kw.get("interactor") == 0 and any(p[0] == "celeriton" and p[1] < 1.0 for p in prim):
+        # stock "scattering" has no celeriton model below 1 MeV but stays selectable there (flat
+        # xs extrapolation): invalid model id, crash in select_discrete_interaction (fixture
+        # artefact, see corpus/C05/stock_mock_at_rest_garbage_action.in)
+        kw["interactor"] = 1
     kw["capacity"] = max(kw["capacity"], sum(p[5] for p in prim) + 4)
     return problem, prim, kw
 
